@@ -29,7 +29,8 @@ BASE = {
     # decoys: notes that own an ID / RID of their own and merely carry the looked-up values
     # under other keys
     "p.zo": "# P page\n\n- 240101#P1 a note on p\n- 240108#P8 decoy ID::other see::gid RID::otherrid src::rid1 also::sid\n",
-    "sub/q.zo": "# Q page\n\n- 240102#Q1 a note on q\n  * LID::anc\n- 240103#Q2 owner of gid ID::gid\n",
+    # the first note of p.zo was also pasted into sub/q.zo: 240101#P1 has two owners, either page will do
+    "sub/q.zo": "# Q page\n\n- 240102#Q1 a note on q\n  * LID::anc\n- 240103#Q2 owner of gid ID::gid\n- 240101#P1 a note on p\n",
     "r.zo": "# R page\n\n- 240104#R1 owner of rid RID::rid1\n- 240105#R2 zid target two\n\n"
             + "#" * 32 + " Project ID::sid\n\n- 240106#R3 first under the project\no 240107#R4 second under the project\n",
 }
@@ -99,10 +100,15 @@ def expected_for_target(zd, t: str, owners: dict) -> tuple[list[str], int]:
     if t == "rid":
         return [f"EDIT {zd}/{owners['rid']}", "SEARCH RID::rid1"], 0
     if t == "zid":
-        return [f"EDIT {zd}/{owners['240105#R2']}", "SEARCH "], 0
+        return [_edit(zd, owners, "240105#R2"), "SEARCH "], 0
     if t == "zidlink":
-        return [f"EDIT {zd}/{owners['240101#P1']}", "SEARCH "], 0
+        return [_edit(zd, owners, "240101#P1"), "SEARCH "], 0
     raise ValueError(t)
+
+
+def _edit(zd, owners, zid):
+    """The EDIT line(s) that open the page of an owner of `zid` (a tuple: str.startswith takes one)."""
+    return tuple(f"EDIT {zd}/{page}" for page in owners[zid])
 
 
 _ENV: dict = {}
@@ -156,7 +162,9 @@ def _env(ctx):
     idx = IR.read_index(zd)
     owners = {}
     for n in idx["notes"]:
-        owners[n["zid"]] = n["page"]
+        owners.setdefault(n["zid"], [])
+        if n["page"] not in owners[n["zid"]]:
+            owners[n["zid"]].append(n["page"])
         if n["props"].get("ID") == "gid":
             owners["gid"] = n["page"]
         if n["props"].get("RID") == "rid1":
@@ -217,8 +225,7 @@ def _run_case(ctx, case) -> F.Outcome:
     zd = env["zd"]
     if pname == "adjacent-zids":
         # the second ZID is not the primary one, so it is a target
-        want = [f"EDIT {zd}/{env['owners']['240105#R2']}"]
-        if not got_out.startswith(want[0]):
+        if not got_out.startswith(_edit(zd, env["owners"], "240105#R2")):
             problems.append(("non-primary-zid-right-after-primary-not-offered", {"stdout": got_out, "exit": got_code}))
         return _finish(out, case, env, got_out, got_code, problems)
     targets = model_targets(pname, seq, is_zoq)
